@@ -170,7 +170,48 @@ const (
 	outAbsent outcome = "absent_as_before"
 	outOld    outcome = "old"
 	outNew    outcome = "new"
+	outBoth   outcome = "old_identical_to_new"
 )
+
+// isNewState reports whether the destination shows the complete new content.
+func isNewState(tg target, post snapshot) bool {
+	after, ok := post[tg.Path]
+	if !ok {
+		return false
+	}
+	switch tg.Kind {
+	case "file":
+		return after.kind() == "file" && after.Size == int64(len(tg.NewData)) && after.Sum == sha256.Sum256(tg.NewData)
+	case "symlink":
+		return after.kind() == "symlink" && after.Link == tg.NewLink
+	case "dir":
+		if after.kind() != "dir" {
+			return false
+		}
+		got := post.subtree(tg.Path)
+		delete(got, ".")
+		if len(got) != len(tg.NewTree) {
+			return false
+		}
+		for rel, content := range tg.NewTree {
+			e, ok := got[rel]
+			if !ok {
+				return false
+			}
+			if content == nil {
+				if e.kind() != "dir" {
+					return false
+				}
+				continue
+			}
+			if e.kind() != "file" || e.Size != int64(len(content)) || e.Sum != sha256.Sum256(content) {
+				return false
+			}
+		}
+		return true
+	}
+	return false
+}
 
 func describeTree(t map[string]entry) string {
 	keys := make([]string, 0, len(t))
@@ -217,6 +258,10 @@ func judgeTarget(tg target, pre, post snapshot) (outcome, error) {
 	if sameAsBefore() {
 		if !hadBefore {
 			return outAbsent, nil
+		}
+		// previous state and new content may be indistinguishable (e.g. empty -> empty with the same mode)
+		if !tg.Untouched && isNewState(tg, post) {
+			return outBoth, nil
 		}
 		return outOld, nil
 	}
@@ -398,6 +443,9 @@ func checkOrder(tg target, calls []call) error {
 	touches := func(c call) bool { return c.P1 == tg.Path || c.P2 == tg.Path }
 	if tg.Untouched {
 		for _, c := range calls {
+			if c.HasRet && c.Ret < 0 {
+				continue // failed without changing anything (e.g. the clean-up unlinking a path that is not there)
+			}
 			if touches(c) || isUnder(c.P1, tg.Path) || (c.P2 != "" && isUnder(c.P2, tg.Path)) {
 				return fmt.Errorf("the destination %s was to be left alone, but: %s", tg.Path, c)
 			}
